@@ -1,7 +1,8 @@
 SPECIFICATION Spec
 CONSTANTS
-  ProgPool = {"r_third", "r_long", "r_color", "r_nest", "r_var", "r_fn", "r_mixin", "r_list", "r_str", "r_each", "r_err", "r_empty"}
+  ProgPool = {"r_third", "r_long", "r_color", "r_nest", "r_var", "r_fn", "r_mixin", "r_list", "r_str", "r_each", "r_err", "r_empty", "r_uni"}
   ValuePool = {"v_third", "v_slash", "v_long", "v_sum", "v_red", "v_hex", "v_rgba", "v_hsl", "v_dark", "v_qstr", "v_ustr", "v_comma", "v_plist", "v_space", "v_call", "v_em", "v_tiny", "v_exp", "v_calc", "v_true", "v_concat", "v_if", "v_div", "v_neg", "v_pct", "v_big", "v_map", "v_null", "v_bad"}
+  BytePool = {"plain", "bom", "crlf", "nonl", "nul", "bad_utf8", "charset", "empty"}
   MaxItems = 3
 INVARIANTS InvAgreement Emit
 CHECK_DEADLOCK FALSE
